@@ -315,8 +315,15 @@ pub fn run(seed: u64, n: usize, out: &mut Out) {
 
 /// URLs the original rule matches must be matched by the emitted url-filter (plain patterns, no userinfo / port)
 fn superset_check(out: &mut Out, r: &mut Rng, f: &NetworkFilter, raw: &str, rules: &[CbRule]) {
-    let pat = f.filter.string_view().unwrap_or_default();
-    if pat.contains('*') || pat.contains('^') || !raw.is_ascii() {
+    let full_pat = f.filter.string_view().unwrap_or_default();
+    // plain patterns, and plain patterns closed by one separator placeholder (`/ad.js^`): the literal part is instantiated
+    let pat = full_pat.strip_suffix('^').unwrap_or(&full_pat).to_string();
+    if pat.contains('*') || pat.contains('^') || !raw.is_ascii() || (pat.is_empty() && full_pat.ends_with('^')) {
+        return;
+    }
+    let closed = full_pat.ends_with('^');
+    if closed && f.mask.contains(adblock::filters::network::NetworkFilterMask::IS_RIGHT_ANCHOR) {
+        // `…^|` is outside what the clause about plain patterns covers (the emitted pattern keeps only the end-of-URL case)
         return;
     }
     let uf = &rules[0].trigger.url_filter;
@@ -346,7 +353,17 @@ fn superset_check(out: &mut Out, r: &mut Rng, f: &NetworkFilter, raw: &str, rule
         // a backslash ends the authority of http(s) URLs like a slash does: what follows is path, whatever it looks like
         format!("https://a.com\\@{}{}", host, body),
         format!("https://a.com\\x@{}/ad.png", host),
+        // every literal character of the pattern stands for itself: URLs that differ from the pattern in one `.`
+        format!("https://{}{}?cb=1", host, body.replacen('.', "/", 1)),
+        format!("https://{}{}/x", host, body.replacen('.', "-", 1)),
+        format!("https://{}{}", host, body.replace('.', "x")),
     ];
+    let cands: Vec<String> = if closed {
+        // the placeholder stands for a separator character or the end of the URL
+        cands.iter().flat_map(|c| [c.clone(), format!("{}/", c), format!("{}?x=1", c)]).collect()
+    } else {
+        cands.to_vec()
+    };
     for u in cands {
         for ty in ["script", "image", "sub_frame", "xhr"] {
             for src in ["https://page.example/", "https://sub.site.example/"] {
